@@ -552,6 +552,9 @@ def _len(interp, args, kwargs, node):
             if len(o.segs) == 1 and o.segs[0][0] == "each" and not (o.segs[0][3] == PTRUE and o.segs[0][2][0] == "members"):
                 # one guarded family: the same key the emptiness test of this list uses (len(x) == 0 <=> not x)
                 return LinV(F.lin_term(("len", interp.list_desc(o))))
+            if o.is_set and any(s[0] == "sym" for s in o.segs):
+                # a set built from a sequence of unknown content: duplicates may have collapsed
+                return LinV(F.lin_term(("len", ("distinct", interp.list_desc(o)))))
             for s in o.segs:
                 if s[0] == "one":
                     total = F.lin_add(total, F.lin_const(1))
